@@ -384,7 +384,7 @@ def _empty_dict_at_dc_or_dict_union(shape, v):
         return any(_empty_dict_at_dc_or_dict_union(shape[1], x) for x in v.values())
     if k == "tuple" and isinstance(v, list):
         return any(_empty_dict_at_dc_or_dict_union(t, x) for t, x in zip(shape[1:], v))
-    if k == "dc" and isinstance(v, dict):
+    if k in ("dc", "td") and isinstance(v, dict):
         f = {x[0]: x[1] for x in shape[2]}
         return any(n in f and _empty_dict_at_dc_or_dict_union(f[n], x) for n, x in v.items())
     return False
@@ -421,11 +421,11 @@ def first_bad_kind(shape, v):
             for t, x in zip(shape[1:], v):
                 if not G.conforms(t, x):
                     return k + ">" + first_bad_kind(t, x)
-        if k == "dc":
+        if k in ("dc", "td"):
             for name, t, _h, _d in shape[2]:
                 x = v.get(name) if hasattr(v, "get") else None
                 if x is not None and not G.conforms(t, x):
-                    return "dc>" + first_bad_kind(t, x)
+                    return k + ">" + first_bad_kind(t, x)
         if k == "union":
             return "union:" + type(v).__name__
     except Exception:  # noqa
